@@ -5,6 +5,7 @@ import HtpModel.Conn.Res
 import HtpModel.Lemmas.Flags
 import HtpModel.Lemmas.Conn
 import HtpModel.Pinned.Eq
+import HtpModel.Lemmas.FlagsMonoOut
 
 namespace Htp.C11
 open Htp.Conn Htp.Gen Htp.Parse
@@ -278,5 +279,19 @@ theorem C11_res_cl_repeated (c : Conn) (uid : Nat) (t : Tx) (cl : Header) (te ct
 /-- **C11 (the constants are the reviewed ones)**: every constant the translator reads from the current source - among them the indicator flag values -
     equals its reviewed snapshot (lean/HtpModel/Pinned); the model follows a regenerated constant, so this is what notices a changed one -/
 theorem C11_constants_pinned : Htp.Pinned.ConstantsPinned := Htp.Pinned.constants_pinned
+
+/-- **C11 (an indicator, once raised, stays raised: over whole histories)**: "always flagged" is a statement about every later view of the
+    transaction - the callbacks that run afterwards and the final record. For a connection parser from its creation (any configuration, any
+    callback policy table), every history of calls (request and response chunks in any interleaving, gaps, close, req_close, open, tx_freed)
+    and every prefix of it: a transaction that exists after the prefix and still exists after the whole history has, afterwards, every
+    indicator bit it had before - no function of either direction clears a bit (every write of `flags` is `flags ||| X` or the result of a
+    parser function whose returned word contains the word it was given: `requestFraming_flags_mono`, `requestHost_flags_mono`, the URI
+    normaliser, the decoders, the urlencoded parser; uids are never reused, `uid_not_reused`; `Lemmas/FlagsMono.lean`, `FlagsMonoOut.lean`).
+    Together with the decision theorems above (WHEN a bit is raised) this is the model-level content of "always flagged". -/
+theorem C11_history_flags_never_cleared (cfg : Cfg) (policy : List (Nat × CbAction)) (calls pre : List Call) (hp : pre <+: calls)
+    (u : Nat) (t t' : Tx) (bit : Nat)
+    (h1 : (runCalls cfg { policy := policy } pre).findTx u = some t) (hb : hasFlag t.flags bit = true)
+    (h2 : (runCalls cfg { policy := policy } calls).findTx u = some t') : hasFlag t'.flags bit = true :=
+  history_flag_sticky cfg _ (hyg_of_empty rfl) calls pre hp bit h1 hb h2
 
 end Htp.C11
